@@ -64,6 +64,10 @@ pub fn op_alphabet() -> Vec<Op> {
         Op::Infix("+", 130, true, "B"),
         Op::Infix("/", 120, false, "A"),
         Op::Infix("~=", 105, true, "A"),
+        // a symbolic operator that continues with a character no built-in operator contains, and a
+        // word operator whose name is short in characters but long in bytes
+        Op::Infix("=~", 105, true, "A"),
+        Op::Infix("\u{4e0d}\u{5305}\u{542b}\u{4e8e}", 105, true, "A"),
         Op::Postfix("npo", "A"),
         Op::Postfix("++", "A"),
     ]
@@ -175,6 +179,12 @@ const PROBES: &[&str] = &[
     "1 not hi 2",
     "1 ~= 2",
     "1 ~= 2 + 3 ~= 4",
+    // a name bound to a context function is assigned the very value that function returns
+    // with no arguments: afterwards it is a variable, and a call goes to the global function
+    "nf = 'ctx-nf(0)' ; nf(1)",
+    "1 =~ 2",
+    "x = 1 ; x =~ 2",
+    "1 \u{4e0d}\u{5305}\u{542b}\u{4e8e} 2",
     "1 hi (2 hi 3)",
     "(1 hi 2) hi 3",
     "(1 + 2) hi 3",
